@@ -7,6 +7,7 @@ git -C /repo worktree remove --force $WT 2>/dev/null
 git -C /repo worktree add --detach -q $WT HEAD || exit 3
 for d in /verif/seeded/*/; do
   n=$(basename $d)
+  if grep -q '"obsolete"' $d/meta.json; then echo "OBSOLETE $n (harmless on the repaired tree, see meta.json)"; continue; fi
   if ! git -C $WT apply --check $d/patch.diff 2>/dev/null; then echo "NOAPPLY $n"; continue; fi
   git -C $WT apply $d/patch.diff
   checks=$(/venv/bin/python -c "import json;print(' '.join(json.load(open('$d/meta.json'))['caught_by']))")
